@@ -59,7 +59,8 @@ def expect_list(en, orc, st, listname):
         return ("err", [E("format", "literal")])
     vs = variants_by_name(en)
     classify_names(orc.ck, st, [it], list(vs))
-    if it.cls is None:
+    if it.cls is None or it.cls not in vs:
+        # no selectable variant carries this name (a name the implementation compared with, e.g. a skipped variant's, is still unknown)
         return ("err", [E("unknown", it.namevar, span=("node", it.meta))])
     v = vs[it.cls]
     name = it.cls
